@@ -1,4 +1,3 @@
-(* WIP *)
 (* Model of packets/properties.go: the Properties struct, validPacketProperties, Decode and Encode.
    No proofs in this file.  (The record and its field setters are mechanical.) *)
 From MV Require Import Base.Val Codec.Vbi Codec.Wire.
